@@ -687,6 +687,11 @@ def check_wait_fn(rep, fl, rule="R10.4"):
     wgs = [s for s in subexprs(pay) if is_call(s, "WaitGroup::add") or is_call(s, "AsyncWaitGroup::add")]
     okp = okp and len(wgs) >= 1 and wgs[0][2][1] == ("const", 1, "usize")
     rep.check(okp, rule, fl, b, "marker", "the marker carries wg.add(1) of a fresh WaitGroup", "the Wait marker is built as %s" % show(pay))
+    # the group belongs to this call: one shared between calls or handles is released by other callers' markers
+    # (and a marker's token is given back on drop as well as on handling: a shared counter under-counts)
+    grp = norm(b.expand(wgs[0][2][0])) if wgs else None
+    okf = grp is not None and (is_call(grp, "WaitGroup::new") or is_call(grp, "AsyncWaitGroup::new") or is_call(grp, "Default::default")) and not mentions(grp, V("self"))
+    rep.check(okf, rule, fl, b, "own group", "wait() blocks on a WaitGroup created by this very call", "the WaitGroup of wait() is %s, not one created by this call: concurrent waiters release each other before their own marker is reached" % (show(grp) if grp else "?"))
     # wg.wait() on the same group, only after a successful send
     waits = []
     for x in descendants(facts, b):
@@ -820,6 +825,10 @@ def check_clear(rep, fl, rule="R11.1"):
               "clear() does not send exactly one request carrying a release token on clear_tx (%d sends)" % len(sig))
     if not ok:
         return
+    grp = norm(b.expand(wgs[0][2][0]))
+    okf = (is_call(grp, "WaitGroup::new") or is_call(grp, "AsyncWaitGroup::new") or is_call(grp, "Default::default")) and not mentions(grp, V("self"))
+    rep.check(okf, rule, fl, b, "own group", "clear() blocks on a WaitGroup created by this very call",
+              "the WaitGroup of clear() is %s, not one created by this call: concurrent callers release each other before their own request is served" % show(grp))
     sbi, st_, pay = sig[0]
     # every open path sends the request
     okall = True
@@ -967,6 +976,7 @@ def check_C11(rep, fl):
     props_policy.check_balance(rep, fl, props_policy.slfu_writers(fl.facts))
     import props_sketch
     props_sketch.check_tinylfu(rep, fl)
+    props_sketch.check_reset_complete(rep, fl, "R11.2", only=("policy::SampledLFU",))
 
 
 # ----------------------------------------------------------------------------------------
@@ -1026,7 +1036,18 @@ def check_clear_affinity(rep, fl, rule="R06.1"):
                       "(or a handle_item between its policy.add and store.try_insert) ends up charged-but-not-resident or resident-but-uncharged after clear()" % (short(callee), short(r)), loc=t["sp"])
 
 
-def check_handle_item_pairing(rep, fl, rule="R06.2", collisions=True):
+def check_handle_item_pairing(rep, fl, rule="R06.2", collisions=True, only_sites=None):
+    if only_sites is not None:
+        # a property that rests on some of the pairings only (C02: what makes a removed or refused value
+        # unreachable; not what happens to the policy's victims)
+        from framework import Report
+        tmp = Report(rep.prop, rep.tier)
+        try:
+            check_handle_item_pairing(tmp, fl, rule, collisions)
+        finally:
+            rep.instances.extend(i for i in tmp.instances if i.site in only_sites or i.verdict == "anchor-missing")
+            rep.notes.extend(tmp.notes)
+        return
     facts = fl.facts
     hi = fl.proc_fn("handle_item")
     at, entry = dataflow(hi)
